@@ -100,6 +100,8 @@ type Facts struct {
 	Allowed    [][2]int               `json:"allowed"`
 	AllowedWhy []string               `json:"allowed_why"`
 	Anchors    map[string]int         `json:"anchors"`
+	Secure     []int                  `json:"secure,omitempty"`
+	Direct     []int                  `json:"direct,omitempty"` // functions checked for direct references only
 	Extra      map[string]interface{} `json:"extra,omitempty"`
 }
 
